@@ -84,6 +84,17 @@ def tokeniser(ctx, rule):
                     lit = lit[1]
                 if isinstance(lit, tuple) and lit[0] in ("bytes", "str"):
                     prefix = lit[1]
+        if prefix is None:
+            # a slice pattern (`[b'W', b'/', b'"', ..]`) instead of starts_with: the bytes the path has pinned at 0, 1, 2, ...
+            pinned = {}
+            for t, val in o.cons.known.items():
+                if isinstance(t, tuple) and t[0] == "proj" and t[1] == REM0 and isinstance(t[2], tuple) and t[2][0] == "cidx" and not t[2][2] \
+                        and isinstance(val, int):
+                    pinned[t[2][1]] = val
+            s = ""
+            while len(s) in pinned:
+                s += chr(pinned[len(s)])
+            prefix = s or None
         found = None
         for e in o.events:
             if e["k"] == "call" and isinstance(e.get("result"), tuple) and e["result"][0] == "found":
@@ -115,7 +126,7 @@ def tokeniser(ctx, rule):
                     bad.append("the element is %s, not remaining[0 .. prefix+position+1]" % short(iv, 80))
                 # remainder
                 rest = ("slice", hay[1] if isinstance(hay, tuple) and hay[0] == "slice" else None, want_end, None)
-                first = ("proj", rest, ("cidx", 0, False, 1))
+                first = ("proj", rest, ("cidx", 0, False, 0))
                 comma = o.cons.known.get(first)
                 r2 = rem2
                 if comma == 44:
